@@ -269,9 +269,10 @@ def std_stages(tier, seed, battery, closed=("split", "long"), kinds_random=None,
     # (235 886 words) are judged through key-sample projections. Quick: the first 1 500 calls of every tree.
     st.append(Stage("suite", "suite", "repository-tests", size, battery, max=(1500 if q else 0), proj=(3 if q else 6)))
     # the values are the tree's to keep alive: pointer-carrying value types, forced collections between the calls
-    for k, vt in (("uint32", "ptr"), ("alpha/string", "string"), ("float64", "rich")) if q else (
+    for k, vt in (("uint32", "ptr"), ("alpha/string", "string"), ("float64", "rich"), ("int16", "tail")) if q else (
+            ("int16", "tail"), ("collation/string/und", "tail"),
             ("uint32", "ptr"), ("alpha/string", "string"), ("float64", "rich"), ("int16", "bytes"), ("alpha/bytes", "ptr"), ("uint64", "string")):
-        st.append(Stage("gc", k, "random", size, battery, vt=vt, n=(2 if q else 6), len=(60 if q else 150)))
+        st.append(Stage("gc", k, "text" if k.startswith("collation") else "random", size, battery, vt=vt, n=(2 if q else 6), len=(60 if q else 150)))
     # lengths and depths around 255 / 256 (closed), around 65535 / 65536 (random histories, no dumps)
     # (keys of 300 bytes make the model's own all-arguments invariants slow: on these universes TLC enumerates the
     # transitions and checks size and shape; the real trees are judged by the traces as everywhere)
